@@ -9,15 +9,23 @@ the specified field element, comparisons exactly the specified truth value, the 
 defines one, and then that value; `&&`, `||`, `!` on known booleans are the boolean connectives;
 no operator combination panics.
 
-Not yet a Lean theorem: the lifting to whole expressions and to all execution paths (generic
-argument in DESIGN.md 4.5: annotations are never overwritten with a different value, every
-environment entry has a unique SSA definition, hypothesis `PhiComplete`).  These levels are
-decided per run by `checks/c06.py`: node-by-node equality of the real annotations with the Lean
+Expression and statement level (added after the first build): for every expression, every abstract
+environment and every concrete environment `ρ` that agrees with it, every claim written by
+`propagate_values` on any node of the expression is the value the node has under `ρ` whenever it has
+one (`C06_expr_sound`, by mutual induction over the expression forms; the short-circuit `changed`
+flags only skip work), propagation changes annotations only (`C06_eval_unchanged`), and a
+substitution whose assignment `ρ` satisfies keeps the environment in agreement, including
+`add_variable`'s "two different values ⇒ non-constant" rule (`C06_stmt_sound`).
+
+Not a Lean theorem: the lifting to all execution paths (that the concrete values along a run form an
+environment satisfying each executed SSA assignment, and `phi` claims — hypothesis `PhiComplete`).
+That level is decided per run by `checks/c06.py`: node-by-node equality of the real annotations with the Lean
 propagation model (all three primes) and a reference interpreter that executes the same SSA CFG
 and compares every value an annotated node takes; `PhiComplete` is evaluated on every instance
 and is the identity of the one known finding.
 -/
 import Circomspect.Model.Propagate
+import Circomspect.Lemmas.ValueLemmas
 import Circomspect.Props.C16
 
 namespace Circomspect.C06
@@ -137,5 +145,29 @@ theorem C06_unknown_operand (op : String) (x : Option Val) (p : Int) :
 
 /-- non-vacuity -/
 example : valInfix "lt" (some (.fe 6)) (some (.fe 1)) 7 = some (.bool true) := by decide
+
+/-- every claim written on any node of an expression is right under every concrete environment that
+    agrees with the abstract one -/
+theorem C06_expr_sound (ρ : VName → Option Val) (env : ValEnv) (hag : Agree ρ env) (e : Expr)
+    (h : SoundE ρ env.prime e) : SoundE ρ env.prime (valExpr env e).1 :=
+  valExpr_sound ρ env hag e h
+
+/-- propagation changes annotations only: the value of the expression is untouched -/
+theorem C06_eval_unchanged (ρ : VName → Option Val) (p : Int) (env : ValEnv) (e : Expr) :
+    evalE ρ p (valExpr env e).1 = evalE ρ p e :=
+  evalE_valExpr ρ p env e
+
+/-- a substitution keeps the abstract environment in agreement with every concrete environment that
+    satisfies the assignment -/
+theorem C06_stmt_sound (ρ : VName → Option Val) (env : ValEnv) (hag : Agree ρ env)
+    (a : Ann) (v : VName) (ty : Option VType) (op : String) (rhe : Expr)
+    (hs : SoundE ρ env.prime rhe) (hsat : ρ v = evalE ρ env.prime rhe) :
+    Agree ρ (valStmt env (.sub a v ty op rhe)).2.1 :=
+  valStmt_sub_sound ρ env hag a v ty op rhe hs hsat
+
+/-! non-vacuity: `x + 2` with `x ↦ 3` known and the leaves annotated by an earlier pass: the node gets
+    the claim 5 -/
+example : (valExpr ⟨21888242871839275222246405745257275088548364400416034343698204186575808495617, [(⟨"x", none, some 0⟩, .fe 3)], []⟩
+    (.infix {} "add" (.var { val := some (.fe 3) } ⟨"x", none, some 0⟩) (.num { val := some (.fe 2) } 2))).1.ann.val = some (.fe 5) := by decide
 
 end Circomspect.C06
